@@ -3,7 +3,7 @@
 scale=${1:-0.5}; filter=${2:-}
 for d in /verif/seeded/*${filter}*/; do
   id=$(basename $d); prop=$(python3 -c "import json;print(json.load(open('$d/meta.json'))['breaks_property'])")
-  out=$(/verif/tools/try_mutant.sh $d/patch.diff $prop $scale 2>&1); rc=$?
+  out=$(${VERIF_DIR:-/verif}/tools/try_mutant.sh $d/patch.diff $prop $scale 2>&1); rc=$?
   rules=$(echo "$out" | grep -o "rule=[A-Za-z0-9]*" | sort | uniq -c | tr '\n' ' ')
   harness=$(echo "$out" | grep -c HARNESS)
   echo "$id $prop rc=$rc harness_lines=$harness $rules"
